@@ -85,6 +85,26 @@ def popOp (h : Heap) (v : Val) : Except Err (Heap × Val) :=
     | none => .error .oob
     | some x => .ok (h.set a (h.arr a).dropLast, x)
 
+/-- `MAX_COUNT` of translate_bytecode.rs: `ConstructArray` counts its elements with 16 bits -/
+def maxCount : Nat := 65535
+
+/-- the pushes that follow `ConstructArray` for the rest of a long literal: `Duplicate; <expr>; ArrayPush` each -/
+def pushAll (v : Val) : List Val → Heap → Except Err Heap
+  | [], h => .ok h
+  | x :: xs, h =>
+    match pushOp h v x with
+    | .error e => .error e
+    | .ok h1 => pushAll v xs h1
+
+/-- an array literal `[e1, …, en]` as translate_bytecode.rs compiles it: `ConstructArray` over the first
+    `min(n, 65535)` values, the remaining ones pushed onto the new array in order (arrays of `void` hold
+    dummy values the same way) -/
+def constructLit (h : Heap) (vs : List Val) : Except Err (Heap × Val) :=
+  let (h0, a) := construct h (vs.take maxCount)
+  match pushAll a (vs.drop maxCount) h0 with
+  | .error e => .error e
+  | .ok h1 => .ok (h1, a)
+
 /-! ## prelude.abra, `extend array<T>` -/
 
 /-- `fn is_empty(self) = self.len() == 0` -/
